@@ -14,7 +14,10 @@ def strategy():
                     nf_payload_max=800, index_types=False, units=False, name_max=8)
     large = Profile(vrl='mixed', max_frames=1, max_channels=2, max_rows=3, max_width=2, noformat=3,
                     nf_payload_max=50000, index_types=False, units=False, name_max=40)
-    return st.one_of(file_specs(small), file_specs(small), file_specs(large))
+    # several frames and logical files around the payloads (each record must still appear exactly once, under its object)
+    frames = Profile(vrl=[64, 128, 8192], max_frames=3, max_channels=2, max_rows=3, max_width=2, noformat=3,
+                     nf_payload_max=300, index_types=False, units=False, name_max=8, max_lfs=2, lf_distinct_sets=True)
+    return st.one_of(file_specs(small), file_specs(small), file_specs(large), file_specs(frames))
 
 
 class C16(Property):
@@ -23,7 +26,7 @@ class C16(Property):
     technique = ("Hypothesis-generated payload sequences over 1-3 NO-FORMAT objects written through the public API; "
                  "round-trip oracle: type-1 IFLRs decoded by the independent reader == payloads in add order")
     rule = ("cases: 0-5 payloads (bytes / bytearray / str; length 0..several segment capacities; arbitrary byte values "
-            "incl. trailing 0x01) over 1-3 NO-FORMAT objects x record lengths; non-trivial = >= 2 payloads with one "
+            "incl. trailing 0x01) over 1-3 NO-FORMAT objects x record lengths, a quarter of the cases with 1-3 frames in 1-2 logical files; non-trivial = >= 2 payloads with one "
             "shorter than 8 bytes or longer than a segment capacity")
 
     def searches(self, ctx):
@@ -41,6 +44,11 @@ class C16(Property):
             labels.append('payload<8')
         if any(n > cap for n in pl):
             labels.append('payload>capacity')
+        nfr = sum(1 for lf in spec['lfs'] for op in lf['ops'] if op['t'] == 'frame')
+        if nfr >= 2 and pl:
+            labels.append('payloads-with>=2-frames')
+        if len(spec['lfs']) >= 2 and pl:
+            labels.append('payloads-with>=2-logical-files')
         nt = len(pl) >= 2 and any(n < 8 or n > cap for n in pl)
         if r['outcome'] != 'written':
             return Result([], labels, False, outcome_label(r))
